@@ -20,7 +20,7 @@ Definition C08_enumeration_shape_pinned : pin_c08_enum_ok = true := eq_refl.
 
 (* which branch is live on the tree under test: (lookup, constant-reference, non-.j2, support-templates) repairs recognised,
    call path effect-free, namespace/type file clash check present *)
-Eval vm_compute in (k_fix_lookup the_code, k_fix_constref the_code, k_fix_nonj2 the_code, k_fix_suptpl the_code, k_path_pure the_code, k_ns_check the_code, k_stem_check the_code).
+Eval vm_compute in (k_fix_lookup the_code, k_fix_constref the_code, k_fix_nonj2 the_code, k_fix_suptpl the_code, k_path_pure the_code, k_ns_check the_code, k_stem_check the_code, k_fix_pyres the_code, k_fix_linkdir the_code).
 
 (* obligation: the four --list-inputs repairs (lookup dependencies, constant-only references, non-.j2 template resources,
    --support-templates overrides) are recognised in the tree under test; (3) below is therefore the live statement.  A tree that
@@ -62,11 +62,15 @@ Print Assumptions C08_list_modes_pure.
    `ns_clash` (an invalid namespace file stem, or a namespace file whose path is a type's file: ValueError before anything is
    listed) and `rejected`
    are the two configurations in which no mode does anything at all.
-   Residual hypotheses: no Python package file (.py/.pyc) is in the template closure, and no rendered support template refers
-   to further templates (the support listing names the rendered resources only). *)
+   The two remaining hypotheses are NOT harmless; each is the trigger of a recorded finding with a witness below:
+   `eff_trig_tpl` -- some template of the closure is a file get_templates does not enumerate: a .py resource
+   (F-LIST-INPUTS-PYRES) or a file below a symbolically linked sub-directory (F-LIST-INPUTS-SYMLINKDIR); with
+   design_notes/C08_list_inputs_closure_fix.patch in the tree (k_fix_pyres, k_fix_linkdir) only `__init__.py` and byte code remain;
+   `trig_sup_refs` -- a rendered support template (a --support-templates override) refers to further templates
+   (F-LIST-INPUTS-SUPREFS: the support listing names the rendered resources only). *)
 Theorem C08_list_inputs_complete :
   forall (c : cfg) (i : inputs), f_lc (c_flags c) = false -> rejected c = false -> ns_clash the_code c i = false ->
-  trig_py the_code c i = false -> trig_sup_refs the_code c = false ->
+  eff_trig_tpl the_code c i = false -> trig_sup_refs the_code c = false ->
   forall x, In x (all_influences the_code c i) -> is_config_input c x = false ->
   forall f, exists out, run the_code (li_of c) i f = (f, out, Ok) /\ In x out.
 Proof. exact list_inputs_complete_live. Qed.
@@ -82,6 +86,27 @@ Theorem C08_list_inputs_complete_partial :
   forall f, exists out, run the_code (li_of c) i f = (f, out, Ok) /\ In x out.
 Proof. exact list_inputs_partial_thm. Qed.
 Print Assumptions C08_list_inputs_complete_partial.
+
+Theorem C08_list_inputs_pyres_refuted : k_fix_pyres the_code = false -> k_fix_nonj2 the_code = true ->
+  let c := w_cfg SNever false (Some w_tpl_pyres) None in let x := [[112]; [120]] in
+  eff_trig_tpl the_code c w_inputs_plain = true
+  /\ path_in x (influence_set the_code c w_inputs_plain) = true /\ path_in x (listed c w_inputs_plain) = false.
+Proof. exact list_inputs_pyres_refuted_w. Qed.
+Print Assumptions C08_list_inputs_pyres_refuted.
+
+Theorem C08_list_inputs_linkdir_refuted : k_fix_linkdir the_code = false ->
+  let c := w_cfg SNever false (Some w_tpl_linked) None in let x := [[112]; [120]] in
+  eff_trig_tpl the_code c w_inputs_plain = true
+  /\ path_in x (influence_set the_code c w_inputs_plain) = true /\ path_in x (listed c w_inputs_plain) = false.
+Proof. exact list_inputs_linkdir_refuted_w. Qed.
+Print Assumptions C08_list_inputs_linkdir_refuted.
+
+Theorem C08_list_inputs_suprefs_refuted :
+  let c := w_cfg SAsNeeded false None (Some w_sup_dir_refs) in let x := [[100]; [104]] in
+  trig_sup_refs the_code c = true /\ eff_trig_lookup the_code w_inputs_plain = false /\ eff_trig_tpl the_code c w_inputs_plain = false
+  /\ path_in x (influence_set the_code c w_inputs_plain) = true /\ path_in x (listed c w_inputs_plain) = false.
+Proof. exact list_inputs_suprefs_refuted_w. Qed.
+Print Assumptions C08_list_inputs_suprefs_refuted.
 
 (* (3b) What --list-inputs prints for the type generator is the set of PATHS of the listable files that its loader chain can
    serve (not names: the same basename in two directories gives two entries); for the support generator the path
